@@ -291,7 +291,8 @@ func (sp *scorePair[T]) taperedScore(b *board.Board) T {
 		v := int(mgScore)*mgPhase + int(egScore)*egPhase
 		v *= int(100 - fifty)
 
-		return T(v / MaxPhase / 100)
+		// with enough extra queens the material alone would reach the mate scores
+		return T(Clamp(v/MaxPhase/100, int(-Inf+MaxPlies+1), int(Inf-MaxPlies-1)))
 	}
 
 	v := mgScore*T(mgPhase) + egScore*T(egPhase)
